@@ -334,7 +334,7 @@ class Interp:
         if fr.finfo is not None and not name.startswith("<"):
             # unbound name: NameError at run time
             self.event("raise", (Op("NameError", Const(name)),), node)
-            self.note_raise(self.local_guard(state=False))
+            self.note_raise(self.local_guard(state=True))
         return Undef(name)
 
     def store_name(self, name, val):
@@ -689,6 +689,12 @@ class _ExprMixin:
                 return Const(base.v[slice(lo.v, hi.v, st.v)])
             except Exception:
                 pass
+        if isinstance(base, Op) and base.op in ("fmt", "concat") and base.args and is_const(base.args[0], str) \
+                and st == NONE and (lo == NONE or is_int(lo)) and is_int(hi):
+            pre = base.args[0].v
+            l0 = 0 if lo == NONE else lo.v
+            if 0 <= l0 <= hi.v <= len(pre):
+                return Const(pre[l0:hi.v])
         lobj = self.as_list(base)
         if lobj is not None and lobj.concrete() and all(isinstance(x, Const) for x in (lo, hi, st)):
             items = lobj.items[slice(lo.v, hi.v, st.v)]
@@ -1352,13 +1358,13 @@ class _StmtMixin:
     def st_Raise(self, st):
         exc = self.ev(st.exc) if st.exc is not None else Op("reraise")
         self.event("raise", (exc,), st)
-        self.note_raise(self.local_guard(state=False))
+        self.note_raise(self.local_guard(state=True))
 
     def note_raise(self, g_local, from_callee=False):
         """g_local: condition (relative to this frame's entry, or to the callee's
         entry when from_callee) under which an exception leaves."""
         fr = self.frames[-1]
-        g = g_local if not from_callee else and_(self.local_guard(state=False), g_local)
+        g = g_local if not from_callee else and_(self.local_guard(state=True), g_local)
         tr = getattr(fr, "try_stack", None)
         if tr:
             tr[-1].append(g)       # caught (approximately) by the enclosing try
@@ -1830,7 +1836,7 @@ class _ExtMixin:
         if name in EXIT_FUNCS:
             self.event("exit", (name, tuple(args)), node)
             fr = self.frames[-1]
-            g = self.local_guard(state=False)
+            g = self.local_guard(state=True)
             if not hasattr(fr, "raised"):
                 fr.raised = []
             fr.raised.append(g)
